@@ -74,8 +74,10 @@ Definition sp_typename : fielddef :=
 
 Definition sp_field (t : typedef) (n : str) : option fielddef :=
   if is_composite t then
-    if str_eqb n (s "__typename") then Some sp_typename
-    else find (fun f => str_eqb (iname (fd_name f)) n) (sp_fields t)
+    match find (fun f => str_eqb (iname (fd_name f)) n) (sp_fields t) with
+    | Some f => Some f
+    | None => if str_eqb n (s "__typename") then Some sp_typename else None
+    end
   else None.
 
 Definition names_of (l : list ident) : list str := map iname l.
@@ -103,7 +105,8 @@ Inductive site :=
 | StField (parent : option typedef) (name : ident) (args : option arguments) (sel : option selset)
 | StSpread (parent : option typedef) (name : ident)
 | StInline (parent : option typedef) (cond : ident)
-| StDirs (loc : str) (ds : list directive).
+| StDirs (loc : str) (ds : list directive)
+| StCycle (name : str).      (* only produced by the spread-following enumeration below *)
 
 Definition child_type (S : tsdoc) (parent : option typedef) (name : str) : option typedef :=
   match parent with
@@ -212,8 +215,27 @@ Section LitFields.
     end.
 End LitFields.
 
+(** the named-type clause of "Values of Correct Type" for a non-null, non-variable literal; [lo] is [lit_ok] *)
+Definition lit_named (lo : value -> ty -> bool) (S : tsdoc) (v : value) (n : ident) : bool :=
+  match sp_type S (iname n) with
+  | None => true
+  | Some (TDScalar _ _ name _ _) => builtin_scalar_ok (iname name) v
+  | Some (TDEnum _ _ _ _ vals _) =>
+      match v with VEnum _ m => mem m (map (fun e => iname (ev_name e)) vals) | _ => false end
+  | Some (TDInput _ _ _ _ fields _) =>
+      match v with
+      | VObject _ fs =>
+          lit_fields lo fields fs
+          && nodup_str (map (fun kv => iname (fst kv)) fs)                          (* Input Object Field Uniqueness *)
+          && forallb (fun d => negb (required_input d)
+                               || mem (iname (iv_name d)) (map (fun kv => iname (fst kv)) fs)) fields  (* Required Fields *)
+      | _ => false
+      end
+  | Some _ => false
+  end.
+
 (** Values of Correct Type, with the input coercion of lists (3.11: a non-list value is a list of one
-    item) and of Int literals to Float / ID (3.5); variables are judged by [var_ok] below, not here *)
+    item) and of Int literals to Float / ID (3.5); variables are judged by [variable_usage_allowed], not here *)
 Fixpoint lit_ok (S : tsdoc) (v : value) : ty -> bool :=
   fix on_ty (t : ty) : bool :=
     match v with
@@ -230,23 +252,7 @@ Fixpoint lit_ok (S : tsdoc) (v : value) : ty -> bool :=
       | TNamed n =>
           match v with
           | VNull _ => true
-          | _ =>
-            match sp_type S (iname n) with
-            | None => true
-            | Some (TDScalar _ _ name _ _) => builtin_scalar_ok (iname name) v
-            | Some (TDEnum _ _ _ _ vals _) =>
-                match v with VEnum _ m => mem m (map (fun e => iname (ev_name e)) vals) | _ => false end
-            | Some (TDInput _ _ _ _ fields _) =>
-                match v with
-                | VObject _ fs =>
-                    lit_fields (lit_ok S) fields fs
-                    && nodup_str (map (fun kv => iname (fst kv)) fs)                          (* Input Object Field Uniqueness *)
-                    && forallb (fun d => negb (required_input d)
-                                         || mem (iname (iv_name d)) (map (fun kv => iname (fst kv)) fs)) fields  (* Required Fields *)
-                | _ => false
-                end
-            | Some _ => false
-            end
+          | _ => lit_named (lit_ok S) S v n
           end
       end
     end.
@@ -295,7 +301,10 @@ Record var_use := mkUse { u_name : str; u_type : option ty; u_loc_default : bool
 
 Fixpoint unwrap_lists (t : ty) : ty := match t with TNonNull i | TList _ i => unwrap_lists i | _ => t end.
 
-Fixpoint var_uses (S : tsdoc) (v : value) (t : option ty) (locdef : bool) : list var_use :=
+(** [deep = true]: every variable written anywhere inside the value (what the rule "All Variable Uses
+    Defined" ranges over). [deep = false]: only the uses at positions to which input coercion assigns a
+    type, i.e. not those inside a literal given for a scalar type or for an undefined input field. *)
+Fixpoint var_uses (deep : bool) (S : tsdoc) (v : value) (t : option ty) (locdef : bool) : list var_use :=
   match v with
   | VVar n _ => [mkUse n t locdef]
   | VList _ vs =>
@@ -303,7 +312,10 @@ Fixpoint var_uses (S : tsdoc) (v : value) (t : option ty) (locdef : bool) : list
                   | Some t' => match strip_nonnull t' with TList _ i => Some i | _ => None end
                   | None => None
                   end in
-      flat_map (fun e => var_uses S e item false) vs
+      match item, deep with
+      | None, false => []
+      | _, _ => flat_map (fun e => var_uses deep S e item false) vs
+      end
   | VObject _ fs =>
       let defs := match t with
                   | Some t' => match unwrap_lists t' with
@@ -320,8 +332,8 @@ Fixpoint var_uses (S : tsdoc) (v : value) (t : option ty) (locdef : bool) : list
          | [] => []
          | (k, fv) :: r =>
              match find (fun d => str_eqb (iname (iv_name d)) (iname k)) defs with
-             | Some d => var_uses S fv (Some (iv_type d)) (match iv_default d with Some _ => true | None => false end)
-             | None => var_uses S fv None false
+             | Some d => var_uses deep S fv (Some (iv_type d)) (match iv_default d with Some _ => true | None => false end)
+             | None => if deep then var_uses deep S fv None false else []
              end ++ go r
          end) fs
   | _ => []
@@ -347,23 +359,36 @@ Definition arg_sites (S : tsdoc) (x : site) : list (list (ident * value) * list 
   end.
 
 (** every variable use of a site; arguments of undefined fields / directives / arguments have untyped positions *)
-Definition args_var_uses (S : tsdoc) (args : list (ident * value)) (defs : list inputvaldef) : list var_use :=
-  flat_map (fun kv =>
-    match find (fun d => str_eqb (iname (iv_name d)) (iname (fst kv))) defs with
-    | Some d => var_uses S (snd kv) (Some (iv_type d)) (match iv_default d with Some _ => true | None => false end)
-    | None => var_uses S (snd kv) None false
-    end) args.
+(** [deep = true]: the variables in every supplied argument. [deep = false]: per argument *definition*, the
+    variables in the value supplied for it (the first, should the name be given twice — Argument Uniqueness is
+    not among the implemented rules). *)
+Definition has_default (d : inputvaldef) : bool := match iv_default d with Some _ => true | None => false end.
+Definition arg_for (d : inputvaldef) (args : list (ident * value)) : option (ident * value) :=
+  find (fun kv => str_eqb (iname (iv_name d)) (iname (fst kv))) args.
 
-Definition site_var_uses (S : tsdoc) (x : site) : list var_use :=
+Definition args_var_uses (deep : bool) (S : tsdoc) (args : list (ident * value)) (defs : list inputvaldef) : list var_use :=
+  if deep then
+    flat_map (fun kv =>
+      match find (fun d => str_eqb (iname (iv_name d)) (iname (fst kv))) defs with
+      | Some d => var_uses true S (snd kv) (Some (iv_type d)) (has_default d)
+      | None => var_uses true S (snd kv) None false
+      end) args
+  else
+    flat_map (fun d => match arg_for d args with
+                       | Some kv => var_uses false S (snd kv) (Some (iv_type d)) (has_default d)
+                       | None => []
+                       end) defs.
+
+Definition site_var_uses (deep : bool) (S : tsdoc) (x : site) : list var_use :=
   match x with
   | StField p name args _ =>
       let defs := match p with
                   | Some p' => match sp_field p' (iname name) with Some f => field_argdefs f | None => [] end
                   | None => []
                   end in
-      args_var_uses S (provided args) defs
+      args_var_uses deep S (provided args) defs
   | StDirs _ ds =>
-      flat_map (fun d => args_var_uses S (provided (dir_args d))
+      flat_map (fun d => args_var_uses deep S (provided (dir_args d))
                            (match sp_directive S (iname (dir_name d)) with Some dd => dir_argdefs dd | None => [] end)) ds
   | _ => []
   end.
@@ -385,7 +410,13 @@ Definition overlap (a b : list str) : bool := existsb (fun x => mem x b) a.
 Definition applies (S : tsdoc) (p c : typedef) : bool :=
   negb (is_composite p) || negb (is_composite c) || overlap (possible_types S p) (possible_types S c).
 
-Definition site_ok (S : tsdoc) (D : opdoc) (r : rule) (x : site) : bool :=
+(** per argument definition: the value supplied for it has the declared type *)
+Definition literal_types_vis (S : tsdoc) (a : list (ident * value) * list inputvaldef) : bool :=
+  forallb (fun d => match arg_for d (fst a) with Some kv => lit_ok S (snd kv) (iv_type d) | None => true end) (snd a).
+
+(** [vis]: the reading on the visible sites (see below) judges the value supplied *for each defined argument*;
+    the full reading judges every supplied value *)
+Definition site_ok (vis : bool) (S : tsdoc) (D : opdoc) (r : rule) (x : site) : bool :=
   match r with
   | R_fields_exist =>
       match x with
@@ -409,7 +440,7 @@ Definition site_ok (S : tsdoc) (D : opdoc) (r : rule) (x : site) : bool :=
       end
   | R_args_defined => forallb args_defined_ok (arg_sites S x)
   | R_required_args => forallb required_args_ok (arg_sites S x)
-  | R_literal_types => forallb (literal_types_ok S) (arg_sites S x)
+  | R_literal_types => forallb (if vis then literal_types_vis S else literal_types_ok S) (arg_sites S x)
   | R_fragment_targets =>
       match x with
       | StInline _ c => match sp_type S (iname c) with Some t => is_composite t | None => false end
@@ -461,17 +492,20 @@ Definition op_scope_sites (S : tsdoc) (D : opdoc) (o : opdef) : list site :=
 
 Definition find_var (o : opdef) (n : str) : option vardef := find (fun d => str_eqb (vd_name d) n) (op_vardefs o).
 
-Definition op_vars_defined (S : tsdoc) (D : opdoc) (o : opdef) : bool :=
-  forallb (fun x => forallb (fun u => match find_var o (u_name u) with Some _ => true | None => false end) (site_var_uses S x))
-          (op_scope_sites S D o)
-  && forallb (fun x => match site_var_uses S x with [] => true | _ => false end) (op_const_sites o).
+Definition vars_defined_on (deep : bool) (S : tsdoc) (o : opdef) (sites : list site) : bool :=
+  forallb (fun x => forallb (fun u => match find_var o (u_name u) with Some _ => true | None => false end) (site_var_uses deep S x))
+          sites
+  && forallb (fun x => match site_var_uses deep S x with [] => true | _ => false end) (op_const_sites o).
 
-Definition op_var_usage_ok (S : tsdoc) (D : opdoc) (o : opdef) : bool :=
+Definition var_usage_on (deep : bool) (S : tsdoc) (o : opdef) (sites : list site) : bool :=
   forallb (fun x => forallb (fun u => match find_var o (u_name u), u_type u with
                                       | Some vd, Some t => variable_usage_allowed vd t (u_loc_default u)
                                       | _, _ => true
-                                      end) (site_var_uses S x))
-          (op_scope_sites S D o).
+                                      end) (site_var_uses deep S x))
+          sites.
+
+Definition op_vars_defined (S : tsdoc) (D : opdoc) (o : opdef) : bool := vars_defined_on true S o (op_scope_sites S D o).
+Definition op_var_usage_ok (S : tsdoc) (D : opdoc) (o : opdef) : bool := var_usage_on true S o (op_scope_sites S D o).
 
 (** Single root field (5.2.3.1): CollectFields on the root selection set groups by response key *)
 Fixpoint collect_keys (fuel : nat) (D : opdoc) (acc : list str * list str) (l : list selection) : list str * list str :=
@@ -540,11 +574,107 @@ Definition rule_ok (S : tsdoc) (D : opdoc) (r : rule) : bool :=
   | R_unique_fragments => nodup_str (map (fun f => iname (fr_name f)) (doc_fragdefs D))
   | R_fragment_targets =>
       forallb (fun f => match sp_type S (iname (fr_cond f)) with Some t => is_composite t | None => false end) (doc_fragdefs D)
-      && forallb (site_ok S D r) (all_sites S D)
+      && forallb (site_ok false S D r) (all_sites S D)
   | R_no_cycles => no_cycles_ok D
-  | _ => forallb (site_ok S D r) (all_sites S D)
+  | _ => forallb (site_ok false S D r) (all_sites S D)
   end.
 
 (** the reference validator restricted to the implemented rules *)
 Definition spec_valid (S : tsdoc) (D : opdoc) : bool := forallb (rule_ok S D) all_rules.
 
+
+(** * The positions a spread-following validator looks at, minus the two known blind spots
+
+    The implementation validates a fragment definition's selection set where the fragment is spread
+    (in the scope of the spreading operation's variables), not once per definition, and it does not look
+    below a fragment (inline or named) whose type condition is the very interface type it is spread in.
+    [vis_op_sites] enumerates, per operation, the sites reached by following spreads from the operation,
+    without the sites below such a same-interface fragment. Everything the property theorems of C03
+    claim is claimed for these sites; the sites outside (never-spread fragment definitions, contents of
+    same-interface fragments) are the subject of the [_refuted] lemmas and known findings. *)
+
+Definition same_iface (p : option typedef) (c : option typedef) : bool :=
+  match p, c with
+  | Some (TDInterface _ _ n1 _ _ _ _), Some (TDInterface _ _ n2 _ _ _ _) => str_eqb (iname n1) (iname n2)
+  | _, _ => false
+  end.
+
+Section VisSel.
+  Variable S : tsdoc.
+  (** sites contributed by entering the fragment a spread names (spread's parent type, fragment name) *)
+  Variable enter : option typedef -> ident -> list site.
+
+  Fixpoint vsites_sel (parent : option typedef) (x : selection) : list site :=
+    match x with
+    | SField _ name args dirs sel =>
+        StField parent name args sel :: StDirs (s "FIELD") dirs ::
+        match sel with
+        | None => []
+        | Some (SelSet _ l) => flat_map (vsites_sel (child_type S parent (iname name))) l
+        end
+    | SSpread _ name dirs => StSpread parent name :: StDirs (s "FRAGMENT_SPREAD") dirs :: enter parent name
+    | SInline _ cond dirs (SelSet _ l) =>
+        match cond with
+        | None => StDirs (s "INLINE_FRAGMENT") dirs :: flat_map (vsites_sel parent) l
+        | Some c =>
+            StInline parent c :: StDirs (s "INLINE_FRAGMENT") dirs ::
+            (if same_iface parent (sp_type S (iname c)) then []
+             else flat_map (vsites_sel (sp_type S (iname c))) l)
+        end
+    end.
+End VisSel.
+
+Fixpoint vis_enter (fuel : nat) (S : tsdoc) (D : opdoc) (path : list str) (parent : option typedef) (name : ident)
+  : list site :=
+  match fuel with
+  | 0 => []
+  | Datatypes.S k =>
+      if mem (iname name) path then [StCycle (iname name)]
+      else
+        match sp_frag D (iname name) with
+        | None => []
+        | Some f =>
+            StDirs (s "FRAGMENT_DEFINITION") (fr_dirs f) ::
+            (let cond := sp_type S (iname (fr_cond f)) in
+             if same_iface parent cond then []
+             else flat_map (vsites_sel S (vis_enter k S D (path ++ [iname name])) cond) (selset_sels (fr_sel f)))
+        end
+  end.
+
+Definition vis_op_sites (S : tsdoc) (D : opdoc) (o : opdef) : list site :=
+  StDirs (op_loc (op_type o)) (op_dirs o) ::
+  flat_map (vsites_sel S (vis_enter (Datatypes.S (length (doc_fragdefs D))) S D []) (sp_root S (op_type o)))
+           (selset_sels (op_sel o)).
+
+(** the rules, read on the visible sites ([vs] = the operations with their visible sites, computed once) *)
+Definition rule_ok_vis_on (S : tsdoc) (D : opdoc) (vs : list (opdef * list site)) (r : rule) : bool :=
+  match r with
+  | R_unique_op_names | R_lone_anonymous | R_single_subscription_root | R_unique_vars | R_vars_input_types
+  | R_unique_fragments => rule_ok S D r
+  | R_vars_defined => forallb (fun ov => vars_defined_on false S (fst ov) (snd ov)) vs
+  | R_var_usage_compatible => forallb (fun ov => var_usage_on false S (fst ov) (snd ov)) vs
+  | R_fragment_targets =>
+      forallb (fun f => match sp_type S (iname (fr_cond f)) with Some t => is_composite t | None => false end) (doc_fragdefs D)
+      && forallb (fun ov => forallb (site_ok true S D r) (snd ov)) vs
+  | R_no_cycles =>
+      forallb (fun ov => forallb (fun x => match x with StCycle _ => false | _ => true end) (snd ov)) vs
+  | _ => forallb (fun ov => forallb (site_ok true S D r) (snd ov ++ op_const_sites (fst ov))) vs
+  end.
+
+Definition vis_doc_sites (S : tsdoc) (D : opdoc) : list (opdef * list site) :=
+  map (fun o => (o, vis_op_sites S D o)) (doc_ops D).
+
+Definition rule_ok_vis (S : tsdoc) (D : opdoc) (r : rule) : bool := rule_ok_vis_on S D (vis_doc_sites S D) r.
+
+(** * The part of schema validity the theorems use (the schema "passed check"): argument definitions of
+    one field / directive and the fields of one input object have pairwise distinct names (3.6, 3.10, 3.13) *)
+Definition names_distinct (l : list inputvaldef) : bool := nodup_str (map (fun d => iname (iv_name d)) l).
+Definition schema_wf (S : tsdoc) : bool :=
+  forallb (fun d =>
+    match d with
+    | TSType (TDInput _ _ _ _ fields _) => names_distinct fields
+    | TSType (TDObject _ _ _ _ _ fs _) | TSType (TDInterface _ _ _ _ _ fs _) =>
+        forallb (fun f => names_distinct (field_argdefs f)) fs
+    | TSDirective dd => names_distinct (dir_argdefs dd)
+    | _ => true
+    end) S.
